@@ -78,6 +78,20 @@ func childOp(args []string) (out string, inputLen int) {
 			aid = int(atoi(args[4]))
 		}
 		var err error
+		if args[2] == "files" || args[2] == "items" {
+			// the name-list decoders (/files, /items) behind diff with a glob source and behind sum: the answer is a
+			// list of names, one per line -- whatever lines arrive, the command returns
+			dd, derr := os.MkdirTemp("", "wtnames")
+			if derr == nil {
+				defer os.RemoveAll(dd)
+			}
+			if args[2] == "files" {
+				(&cmd.DiffCommand{SrcBase: args[1], SrcRelPath: "*.wsp", DestBase: dd, ArchiveID: -1, TextOut: ""}).Execute()
+			} else {
+				(&cmd.SumCommand{SrcBase: args[1], ItemPattern: "i*", SrcPattern: "*.wsp", ArchiveID: -1, TextOut: ""}).Execute()
+			}
+			return "returned", n
+		}
 		if args[2] == "viewraw" {
 			err = (&cmd.ViewRawCommand{SrcBase: args[1], SrcRelPath: "x.wsp", ArchiveID: aid, TextOut: ""}).Execute()
 		} else {
